@@ -31,7 +31,7 @@ def cfg(maxhist, emit, policy='first_fit'):
     base = base.replace('MaxHist = 4', f'MaxHist = {maxhist}').replace('Policy = "first_fit"', f'Policy = "{policy}"')
     if emit:
         # generation run: only the emission "invariant"
-        lines = [ln for ln in base.splitlines() if not ln.startswith('INVARIANT')]
+        lines = [ln for ln in base.splitlines() if not ln.startswith(('INVARIANT', 'PROPERTY'))]
         base = '\n'.join(lines) + '\nINVARIANT Emit\n'
     return base
 
@@ -359,8 +359,33 @@ TUnusable == {" @@ ".join(f"({x.strip()})" for x in unus.split(", ")) if unus el
 '''
 
 
+def core_proof(chk):
+    """SpectrumCoreProofs.tla: the TLAPS proof that the core machine SpectrumAssign refines (property CoreStep of the bounded
+    model) keeps occupancy = union of grants and never double-books - for any OMS set, the unbounded axis, any history"""
+    import re
+    import shutil
+    import subprocess
+    import tempfile
+    work = tempfile.mkdtemp(prefix='tlaps-c14-', dir=tlc.BUILD)
+    try:
+        for f in ('SpectrumCore.tla', 'SpectrumCoreProofs.tla'):
+            shutil.copy(tlc.SPEC / f, work)
+        r = subprocess.run(['tlapm', '--cleanfp', 'SpectrumCoreProofs.tla'], cwd=work, capture_output=True, text=True, timeout=900)
+        out = r.stdout + r.stderr
+        m = re.search(r'All (\d+) obligations? proved', out)
+        if not m:
+            raise Machinery(f'tlapm did not prove SpectrumCoreProofs: {out[-1500:]}')
+        chk.cov['tlaps_core_proof'] = dict(module='SpectrumCoreProofs', obligations_proved=int(m.group(1)),
+                                           theorem='Safety == Spec => []Inv (TypeOK, Exact, NoDouble)',
+                                           bound_to_model_by='PROPERTY CoreStep of MC_SpectrumAssign (every Assign step is a core Accept step or stutters)')
+    finally:
+        shutil.rmtree(work, ignore_errors=True)
+
+
 def run(chk):
     b1_hist, emit_hist, sim_num, sim_depth = BOUNDS[chk.tier]
+    if chk.tier == 'thorough':
+        core_proof(chk)
     # ---- B1: exhaustive model checking of the bounded model, all clauses as invariants
     r = tlc.run('MC_SpectrumAssign', cfg_text=cfg(b1_hist, emit=False), timeout=1800, tag='c14-mc')
     chk.add_mc(f'MC_SpectrumAssign MaxHist={b1_hist}', r)
